@@ -160,6 +160,9 @@ def run(ctx):
                     ctors.append(f)
     bad = [f["path"] for f in ctors if not f.get("derived") and not (f.get("name") == "new" and f.get("impl_self_name") == "TagIter")]
     ctx.check(bool(ctors) and not bad, "T5", "who-constructs", "TagIter values are constructed only by TagIter::new (and derived Clone)", "", how=str(sorted({f.get("name") for f in ctors})), why=str(bad))
+    from . import iters
+    iters.check_overrides(ctx, F, "T5", "TagIter")
+    iters.check_overrides(ctx, F, "T6", "ModuleIter")
     # ---- T6
     MI = "multiboot2::module::ModuleIter"
     mn = F.find(impl_self_name="ModuleIter", name="next", impl_trait="core::iter::traits::iterator::Iterator")
